@@ -319,6 +319,64 @@ fn trait_family(c: &mut Cat, _rng: &mut Rng) {
     });
 }
 
+/// the less-travelled sample formats (custom-width integers, unsigned, 64-bit) through the operators and through the
+/// hot paths of the other crates — in both build profiles (the debug-assertion branches of the custom-width
+/// operators are code too); operands stay small so that nothing overflows
+fn rare_format_family(c: &mut Cat, _rng: &mut Rng) {
+    use dasp_sample::types::{I11, I20, U11, U20};
+    let reps = c.calls.min(4000) as i32;
+    c.measure("formats.custom_width_operators_add_sub_mul_neg", Z, || {
+        for i in 1..reps {
+            let (a, b) = (I24::new(i % 1000 - 500).unwrap(), I24::new(i % 7 - 3).unwrap());
+            bb(a + b); bb(a - b); bb(a * b); bb(-a);
+            let (a, b) = (I48::new(i as i64 * 1001 - 7).unwrap(), I48::new(i as i64 % 9 - 4).unwrap());
+            bb(a + b); bb(a - b); bb(a * b); bb(-a);
+            let (a, b) = (U24::new(8_388_608 + i % 1000).unwrap(), U24::new(i % 5).unwrap());
+            bb(a + b); bb(a - b);
+            let (a, b) = (U48::new((1i64 << 47) + i as i64).unwrap(), U48::new(i as i64 % 5).unwrap());
+            bb(a + b); bb(a - b);
+            let (a, b) = (I11::new((i % 30 - 15) as i16).unwrap(), I11::new((i % 5 - 2) as i16).unwrap());
+            bb(a + b); bb(a - b); bb(a * b); bb(-a);
+            let (a, b) = (I20::new(i % 700 - 350).unwrap(), I20::new(i % 5 - 2).unwrap());
+            bb(a + b); bb(a - b); bb(a * b);
+            let (a, b) = (U11::new((1024 + i % 100) as i16).unwrap(), U11::new((i % 5) as i16).unwrap());
+            bb(a + b); bb(a - b);
+            let (a, b) = (U20::new(524_288 + i % 100).unwrap(), U20::new(i % 5).unwrap());
+            bb(a + b); bb(a - b);
+        }
+    });
+    let f24: Vec<[I24; 2]> = (0..reps).map(|i| [I24::new(i % 2000 - 1000).unwrap(), I24::new(500 - i % 1000).unwrap()]).collect();
+    let f48: Vec<[I48; 1]> = (0..reps).map(|i| [I48::new(i as i64 * 4099 - 123).unwrap()]).collect();
+    let u24: Vec<U24> = (0..reps).map(|i| U24::new(8_388_608 + i % 3000 - 1500).unwrap()).collect();
+    let i64s: Vec<[i64; 2]> = (0..reps).map(|i| [i as i64 * 1_000_003, -(i as i64) * 77]).collect();
+    c.measure("formats.packed_and_wide_frames_through_frame_slice_signal_dsp", Z, || {
+        for f in f24.iter() { bb(f.add_amp([I24::new(3).unwrap(), I24::new(-3).unwrap()])); bb(f.offset_amp(I24::new(7).unwrap())); bb(f.scale_amp(0.5)); bb(f.to_float_frame()); bb(f.to_signed_frame()); }
+        for f in f48.iter() { bb(f.add_amp([I48::new(5).unwrap()])); bb(f.scale_amp(0.25)); bb(f.mul_amp([0.5f64])); }
+        for s in u24.iter() { bb(Sample::add_amp(*s, 9i32)); bb(Sample::mul_amp(*s, 0.5)); bb(s.to_signed_sample()); }
+    });
+    let mut a24 = f24.clone();
+    let b24: Vec<[I24; 2]> = f24.iter().map(|_| [I24::new(2).unwrap(), I24::new(-2).unwrap()]).collect();
+    let amp = [0.5f32, 0.25];
+    c.measure("formats.packed_frames_slice_in_place_and_signal_adaptors", Z, || {
+        dasp_slice::add_in_place(&mut a24[..], &b24[..]);
+        dasp_slice::add_in_place_with_amp_per_channel(&mut a24[..], &b24[..], amp);
+        dasp_slice::map_in_place(&mut a24[..], |f| f.scale_amp(0.5));
+        let mut s = signal::from_iter(f24.iter().cloned()).add_amp(signal::from_iter(b24.iter().cloned())).offset_amp(I24::new(1).unwrap()).scale_amp(0.5).delay(2);
+        for _ in 0..f24.len() + 4 { bb(s.next()); }
+        let mut w = signal::from_iter(i64s.iter().cloned()).scale_amp(0.5).clip_amp(1_000_000);
+        for _ in 0..i64s.len() { bb(w.next()); }
+        let mut d = dasp_envelope::Detector::peak(2.0, 5.0);
+        for f in f24.iter() { bb(d.next(*f)); }
+        let mut r = dasp_rms::Rms::new(ring_buffer::Fixed::from([[0.0f32; 2]; 5]));
+        for f in f24.iter() { bb(r.next(*f)); }
+        let src = signal::from_iter(f48.iter().cloned());
+        let mut conv = src.from_hz_to_hz(Sinc::new(ring_buffer::Fixed::from([[I48::new(0).unwrap(); 1]; 8])), 44100.0, 48000.0);
+        for _ in 0..f48.len() { bb(conv.next()); }
+        let mut lin = signal::from_iter(u24.iter().cloned()).scale_hz(Linear::new(u24[0], u24[1]), 1.5);
+        for _ in 0..u24.len() / 2 { bb(lin.next()); }
+    });
+}
+
 fn graph_family(c: &mut Cat, _rng: &mut Rng) {
     use dasp_graph::{node, BoxedNode, Buffer, Input, NodeData};
     type G = petgraph::graph::DiGraph<NodeData<BoxedNode>, (), u32>;
@@ -429,6 +487,7 @@ fn main() {
         signal_family(&mut c, &mut rng);
         graph_family(&mut c, &mut rng);
         trait_family(&mut c, &mut rng);
+        rare_format_family(&mut c, &mut rng);
         for (name, d, e) in std::mem::take(&mut c.results) { all.push((format!("{} {}", name, calls), d, e)); }
     }
     c.results = all;
